@@ -288,9 +288,14 @@ def _choice_validate(ctx, vectors, tag):
         i, kind = int(m.group(1)), m.group(2)
         v, o = vectors[i - 1], rows[i - 1]["out"][0]
         if kind == "bind":
+            # clean answer, but another method / block than rendered (or a clean rejection): not evidence about the property
             raise vlib.Infra("binding: choice vector %s did not parse as intended: %s" % (json.dumps(v), json.dumps(o)[:300]))
-        fails.append({"kind": kind, "vector": v, "out": o, "sig": "override-%s@%s/%s" % (
-            kind, v["o"], "configured" if v["cfgd"] else "unconfigured")})
+        if kind in ("panic", "hang", "unclean"):
+            # the real parser misbehaved on a well-formed request: C38's own oracle, same signatures as the grammar stage
+            sig = "%s@jsonrpc/none" % kind
+        else:
+            sig = "override-%s@%s/%s" % (kind, v["o"], "configured" if v["cfgd"] else "unconfigured")
+        fails.append({"kind": kind, "vector": v, "out": o, "sig": sig})
     return fails, rows
 
 
@@ -309,11 +314,14 @@ def _choice_stage(ctx):
     ctx.cov["choice_vectors"] = len(vectors)
     ctx.cov["choice_archive_attached"] = sum(1 for r in rows if r["out"][0]["arch"])
     ctx.cov["traces_validated_against_impl"] += len(rows)
-    if ctx.cov["choice_archive_attached"] < 20 or sum(1 for v in vectors if v["o"] != "nil") < 100:
-        raise vlib.Infra("vacuous extension-choice table: %d attached" % ctx.cov["choice_archive_attached"])
+    # vacuity is judged on the table itself (what TLC expects), never on what the real code answered
+    if sum(1 for v in vectors if v["exp"]) < 20 or sum(1 for v in vectors if v["o"] != "nil") < 100:
+        raise vlib.Infra("vacuous extension-choice table")
+    if not fails and ctx.cov["choice_archive_attached"] < 20:
+        raise vlib.Infra("extension-choice binding is dead: %d rows attached archive" % ctx.cov["choice_archive_attached"])
     seen = {}
     for f in fails:
-        if f["vector"]["o"] == "nil":
+        if f["vector"]["o"] == "nil" and f["kind"] in ("exts", "cu"):
             # the parser's own decision is C32's property; here it is drift only
             ctx.drift.append("rule-decided marking differs from ExtensionChoice for %s" % json.dumps(f["vector"]))
             continue
@@ -327,6 +335,11 @@ def _choice_stage(ctx):
         if not [a for a in again if a["sig"] == sig and a["vector"] == w["vector"]]:
             raise vlib.Infra("counter-example not reproduced: %s %s" % (sig, json.dumps(w["vector"])))
         v, o = w["vector"], w["out"]
+        if w["kind"] in ("panic", "hang", "unclean"):
+            ctx.violation(sig, "ParseMsg %s on the well-formed request %s (latest %d, override %s): %s (%d vectors in this class)" % (
+                w["kind"], _choice_request(v), v["latest"], "nil" if v["o"] == "nil" else json.dumps(v["list"]),
+                o.get("panics") or json.dumps({k: o.get(k) for k in ("api", "cus", "err")}), len(fl)), {"choice_vectors": [v]})
+            continue
         ctx.violation(sig, "explicit extension choice %s on a parser %s archive, %s block %s latest %d: real extensions %s cu %s, "
                       "decision table says archive=%s (%d vectors in this class)" % (
                           json.dumps(v["list"]), "with" if v["cfgd"] else "without", v["method"], v["req"], v["latest"],
@@ -372,10 +385,13 @@ def run(ctx):
     _choice_stage(ctx)
     fails = _validate(ctx, vectors, "grid")
     cov = ctx.cov
-    if cov["consumer_accepted"] < 100 or cov["consumer_rejected"] < 50 or cov["provider_parsed"] < 100 or cov["binding_block_matches"] < 10:
-        raise vlib.Infra("vacuous exploration: %s" % {k: cov[k] for k in ("consumer_accepted", "consumer_rejected", "provider_parsed", "binding_block_matches")})
-    if len(cov["accepted_per_interface"]) < 6:
-        raise vlib.Infra("an interface never accepted any request: %s" % cov["accepted_per_interface"])
+    # coverage thresholds are about the exploration, not about the code: they only apply when nothing failed
+    # (a parser that panics or rejects everything is reported below, not turned into an infrastructure error)
+    if not fails:
+        if cov["consumer_accepted"] < 100 or cov["consumer_rejected"] < 50 or cov["provider_parsed"] < 100 or cov["binding_block_matches"] < 10:
+            raise vlib.Infra("vacuous exploration: %s" % {k: cov[k] for k in ("consumer_accepted", "consumer_rejected", "provider_parsed", "binding_block_matches")})
+        if len(cov["accepted_per_interface"]) < 6:
+            raise vlib.Infra("an interface never accepted any request: %s" % cov["accepted_per_interface"])
     seen = {}
     for f in fails:
         seen.setdefault(f["sig"], []).append(f)
